@@ -16,7 +16,7 @@ Record pod := {
   p_nnu : string              (* label rollouts.kruise.io/no-need-update *)
 }.
 
-Inductive filter_kind := FNone | FUnordered.
+Inductive filter_kind := FNone | FUnordered | FOrdered (desired_partition : ios).
 
 Record lp_input := {
   i_batches : list ios; i_replicas : Z; i_cur : Z;
@@ -58,6 +58,44 @@ Definition filter_unordered (i : lp_input) : list pod :=
   let diff := i_planned i - need in
   if diff <=? 0 then high ++ term else
   high ++ firstn (Z.to_nat (Z.min diff (zlen low))) low ++ term.
+
+(* FilterPodsForOrderedUpdate (StatefulSets).  sortPodsByOrdinal compares Atoi(name[LastIndex(name,"-"):]) — the dash is part
+   of what is parsed, so the key is MINUS the ordinal and the ascending sort puts the highest ordinal first; a name that does
+   not parse has key 0, a name without any dash makes the slice expression panic.  getPodOrdinal parses what follows the dash. *)
+Fixpoint after_last_dash (s : string) : option string :=
+  match s with
+  | EmptyString => None
+  | String c r => match after_last_dash r with Some x => Some x | None => if Ascii.eqb c "-"%char then Some r else None end
+  end.
+Definition sort_key (p : pod) : option Z :=
+  match after_last_dash (p_name p) with
+  | None => None
+  | Some suf => Some (match atoi (String "-"%char suf) with Some z => z | None => 0 end)
+  end.
+Definition pod_ordinal (p : pod) : Z :=
+  match after_last_dash (p_name p) with Some suf => match atoi suf with Some z => z | None => 0 end | None => 0 end.
+Definition key0 (p : pod) : Z := match sort_key p with Some z => z | None => 0 end.
+Fixpoint insert_by (p : pod) (l : list pod) : list pod :=
+  match l with [] => [p] | h :: t => if key0 p <=? key0 h then p :: h :: t else h :: insert_by p t end.
+Definition sort_by_ordinal (l : list pod) : list pod := fold_right insert_by [] l.
+(* None: the sort panicked *)
+Definition filter_ordered (dp : ios) (i : lp_input) : option (list pod) :=
+  if existsb (fun p => match sort_key p with None => true | Some _ => false end) (i_pods i) && (1 <? zlen (i_pods i)) then None else
+  let pods := sort_by_ordinal (i_pods i) in
+  let partition := scaled true dp (i_replicas i) in
+  let term := filter p_deleting pods in
+  let live := filter (fun p => negb (p_deleting p) && consistent (p_pth p) (p_crh p) (i_rev i)) pods in
+  let high := filter (fun p => partition <=? pod_ordinal p) live in
+  let low := filter (fun p => negb (partition <=? pod_ordinal p)) live in
+  let need := i_replicas i - partition in
+  if need <=? 0 then Some pods else
+  let diff := i_planned i - need in
+  let k := Z.to_nat (Z.min (Z.max diff 0) (zlen low)) in
+  (* since the fix of F33: low-priority pods outside the window that already carry this release's label still reach the
+     patcher (before it they were dropped, and the budget of their batch was handed out a second time) *)
+  Some (high ++ firstn k low ++ filter (fun p => String.eqb (p_rid p) (i_rid i)) (skipn k low) ++ term).
+Definition pods_used_opt (i : lp_input) : option (list pod) :=
+  match i_filter i with FNone => Some (i_pods i) | FUnordered => Some (filter_unordered i) | FOrdered dp => filter_ordered dp i end.
 
 (* first loop of patchPodBatchLabel: classification of one pod *)
 Inductive pclass :=
@@ -137,7 +175,7 @@ Record lp_output := { o_writes : list lwrite }.
 
 Definition patch_pod_batch_label (i : lp_input) : outcome (list lwrite) :=
   if sempty (i_rid i) || (zlen (i_pods i) =? 0) then Ok [] else
-  let pods := match i_filter i with FNone => i_pods i | FUnordered => filter_unordered i end in
+  match pods_used_opt i with None => Panic | Some pods =>
   if (i_cur i <? 0) || (zlen (i_batches i) <=? i_cur i) then Panic else
   match scan_pods i pods (planned_increments (i_batches i) (i_replicas i) (i_cur i)) [] [] with
   | ScanPanic => Panic
@@ -148,7 +186,7 @@ Definition patch_pod_batch_label (i : lp_input) : outcome (list lwrite) :=
     let left_hash := flat_map (fun pc => match snd pc with Some h => [(fst pc, h)] | None => [] end) lft in
     Ok (ws ++ map (fun ph => {| w_pod := p_name (fst ph); w_rid := None; w_bid := None; w_crh := Some (snd ph) |})
                   (ho ++ left_hash))
-  end.
+  end end.
 
 (* effect of the writes on the pod list (pods are identified by name; names are distinct) *)
 Definition apply_write (w : lwrite) (p : pod) : pod :=
